@@ -354,7 +354,7 @@ class Node:
                             n._data = new_data
                 else:
                     # Move this one node to another slot in the map
-                    node_map[self._data_id].remove(self)
+                    cur_nodes.pop(_index_of(cur_nodes, self))
                     try:  # are we adding to existing clones again?
                         node_map[new_data_id].append(self)
                     except KeyError:  # now a singleton with a new data_id
